@@ -250,6 +250,10 @@ func c15FunctionFromElsewhere(b *core.B) {
 			b.NonTrivialStr("function-from-elsewhere", fmt.Sprint(cache, k))
 			b.Count("function-defined-in-another-template")
 			def := strings.Repeat("t\n", k) + "<% let f = fn() { %>\nx\n<%= nope %>\n<% } %>\n"
+			if k == 2 {
+				// the failing statement sits in the block of a helper in the function's body
+				def = strings.Repeat("t\n", k) + "<% let f = fn() { %>\nx\n<%= cap() { %><%= nope %><% } %>\n<% } %>\n"
+			}
 			main := def + "<%= partial(\"p\") %>\n"
 			var r1, r2 R
 			func() {
